@@ -418,6 +418,8 @@ def run_playback(g, h, test_src, logdir):
 INCLUDES = [
     "swimos_runtime__timeout_coord.rs",
     "playback/swimos_runtime__timeout_coord__verif_kani.rs",
+    "swimos_runtime__uplinks.rs",
+    "playback/swimos_runtime__agent__task__remotes__uplink__verif_kani.rs",
     "swimos_runtime__backpressure.rs",
     "playback/swimos_runtime__backpressure__verif_kani.rs",
     "swimos_agent__queues.rs",
@@ -430,6 +432,8 @@ INCLUDES = [
     "playback/swimos_agent__stores__value__verif_kani.rs",
     "swimos_route__route_pattern.rs",
     "playback/swimos_route__route_pattern__verif_kani.rs",
+    "swimos_rocks_store__plane.rs",
+    "playback/swimos_rocks_store__plane__verif_kani.rs",
     "swimos_rocks_store__store_key.rs",
     "playback/swimos_rocks_store__server__verif_kani.rs",
 ]
